@@ -1,7 +1,8 @@
 // Harness for C02: one route (GET or Use) on a fresh app, one request; the handler reports
-// Params(name) for every declared name, Path() and Route().Path. Public API only.
+// Params(name) for every declared name, Params(k) for the extra keys ("*", "+", the first name in
+// upper and lower case), Path() and Route().Path. Public API only.
 //
-// case line:  id  cfg(3 bits: CaseSensitive StrictRouting UnescapePath)  use(0/1)  pattern(hex)
+// case line:  id  cfg(3 bits: CaseSensitive StrictRouting UnescapePath)  mode(0 GET/1 Use/2 mounted GET)  pattern(hex)
 //             path(hex, the request-URI path)  customs(hexlist: registered custom-constraint names)
 //             vtf  vts  (verdict tables, recomputed from the real code on every run/replay)
 //             observation
@@ -10,6 +11,7 @@ package main
 import (
 	"fmt"
 	"io"
+	"strconv"
 	"strings"
 
 	"github.com/gofiber/fiber/v3/log"
@@ -23,7 +25,9 @@ func okPath(p string) bool {
 	return strings.HasPrefix(p, "/") && !strings.HasPrefix(p, "//") && !strings.ContainsAny(p, "?#") && len(p) <= 80
 }
 
-func emit(w *gen.Writer, id string, cfg rt.Cfg, use bool, pattern, path string, customs []string) {
+// mode: 0 = GET route, 1 = Use route, 2 = GET route of a sub-app mounted under rt.MountPrefix (path
+// then is the full request path, prefix included)
+func emit(w *gen.Writer, id string, cfg rt.Cfg, mode int, pattern, path string, customs []string) {
 	userPath := path
 	if cfg.Unescape {
 		userPath = rt.Unquote(path)
@@ -33,8 +37,8 @@ func emit(w *gen.Writer, id string, cfg rt.Cfg, use bool, pattern, path string, 
 		raw = "/" + raw
 	}
 	vtf, vts := rt.Tables([]string{raw, rt.PrettyPattern(cfg, pattern)}, userPath, customs)
-	obs := rt.Serve(cfg, use, pattern, path, customs)
-	w.Case(id, cfg.String(), gen.B(use), gen.Hex(pattern), gen.Hex(path), gen.HexList(customs), vtf, vts, obs)
+	obs := rt.ServeMode(cfg, mode, pattern, path, customs, true)
+	w.Case(id, cfg.String(), strconv.Itoa(mode), gen.Hex(pattern), gen.Hex(path), gen.HexList(customs), vtf, vts, obs)
 }
 
 func main() {
@@ -50,14 +54,14 @@ func main() {
 					return
 				}
 				cfg, ok := rt.ParseCfg(f[1])
-				if !ok || (f[2] != "0" && f[2] != "1") {
+				if !ok || (f[2] != "0" && f[2] != "1" && f[2] != "2") {
 					return
 				}
 				pattern, path := gen.UnHex(f[3]), gen.UnHex(f[4])
 				if !okPath(path) {
 					return
 				}
-				emit(w, f[0], cfg, f[2] == "1", pattern, path, gen.UnHexList(f[5]))
+				emit(w, f[0], cfg, int(f[2][0]-'0'), pattern, path, gen.UnHexList(f[5]))
 			}()
 		}
 		return
@@ -78,6 +82,7 @@ func main() {
 			w.Count("pattern-grammar")
 		}
 		use := r.Chance(1, 4)
+		mount := !use && !malformed && r.Chance(1, 8)
 		for j := 0; j < per && i*per+j < o.N; j++ {
 			cfg := rt.Cfg{CS: r.Bool(), Strict: r.Bool(), Unescape: r.Bool()}
 			var path, kind string
@@ -101,7 +106,15 @@ func main() {
 				}
 			}
 			w.Count("path-" + kind)
-			emit(w, fmt.Sprintf("s%d.%d.%d", o.Seed, i, j), cfg, use, pattern, path, g.Customs)
+			mode := 0
+			if use {
+				mode = 1
+			} else if mount {
+				mode = 2
+				path = rt.MountPrefix + path
+				w.Count("mode-mount")
+			}
+			emit(w, fmt.Sprintf("s%d.%d.%d", o.Seed, i, j), cfg, mode, pattern, path, g.Customs)
 		}
 	}
 }
